@@ -374,6 +374,8 @@ impl Read for [u8] {
 impl Read for std::fs::File {
     fn read_exact_at(&self, buf: &mut [u8], offset: u64) -> Result<(), Error> {
         use std::os::unix::fs::FileExt;
+        #[cfg(jiff_verif)]
+        crate::verif::point("cc.read_at");
         FileExt::read_exact_at(self, buf, offset).map_err(Error::io)
     }
 }
